@@ -385,6 +385,8 @@ pub fn inner_json(rep: &Report) -> Value {
 /// Runs the same property in the binary of another build profile and merges what it found
 pub fn run_inner(ctx: &Ctx, profile: &str, id: &str, rep: &mut Report) {
     let exe = verif_dir().join("harness/target").join(profile).join("nlv");
+    // this thread only waits while the other process works
+    crate::engine::note_current("done", "");
     let out = std::process::Command::new(&exe)
         .arg(id)
         .arg("--tier")
